@@ -183,7 +183,7 @@ fn orders<T: Clone>(v: &[T]) -> Vec<(&'static str, Vec<T>)> {
 
 pub struct Failure { pub id: String, pub message: String, pub input: Value }
 
-pub fn check_family(name: &str, spends: &[Spend]) -> (u64, Vec<Failure>) {
+pub fn check_family(name: &str, spends: &[Spend], thorough: bool) -> (u64, Vec<Failure>) {
     let mut n = 0u64;
     let mut fails = vec![];
     let parents: Vec<u8> = spends.iter().map(|s| s.parent).collect();
@@ -202,7 +202,16 @@ pub fn check_family(name: &str, spends: &[Spend]) -> (u64, Vec<Failure>) {
         // (b) order of conditions within each spend, and of the spends
         if spends.len() <= 2 {
             for (si, s) in spends.iter().enumerate() {
-                for (oname, o) in orders(&s.conds) {
+                let mut all_orders: Vec<(String, Vec<Cond>)> = orders(&s.conds).into_iter().map(|(n, o)| (n.to_string(), o)).collect();
+                if thorough && s.conds.len() > 2 {
+                    let mut rng = crate::rng::Rng::new(0x5eed_0000 + si as u64 + s.conds.len() as u64);
+                    for k in 0..12 {
+                        let mut o = s.conds.clone();
+                        for i in (1..o.len()).rev() { let j = (rng.next() % (i as u64 + 1)) as usize; o.swap(i, j); }
+                        all_orders.push((format!("shuffle{k}"), o));
+                    }
+                }
+                for (oname, o) in all_orders {
                     n += 1;
                     let mut sp = spends.to_vec();
                     sp[si].conds = o;
@@ -229,10 +238,10 @@ pub fn check_family(name: &str, spends: &[Spend]) -> (u64, Vec<Failure>) {
     (n, fails)
 }
 
-pub fn relations_ground() -> EvalResult {
+pub fn relations_ground(thorough: bool) -> EvalResult {
     let mut res = EvalResult { obligations: 0, discharged: 0, failures: vec![], samples: vec![], exhaustive: true };
     let fams = families();
-    let handles: Vec<_> = fams.into_iter().map(|(name, spends)| std::thread::spawn(move || check_family(&name, &spends))).collect();
+    let handles: Vec<_> = fams.into_iter().map(|(name, spends)| std::thread::spawn(move || check_family(&name, &spends, thorough))).collect();
     for h in handles {
         let (n, fails) = h.join().unwrap_or((0, vec![]));
         res.obligations += n;
@@ -255,7 +264,7 @@ pub fn replay_relations(input: &Value) -> (bool, String) {
     let fam = input["family"].as_str().unwrap_or("");
     for (name, spends) in families() {
         if name == fam {
-            let (_, fails) = check_family(&name, &spends);
+            let (_, fails) = check_family(&name, &spends, true);
             for f in fails {
                 if f.input == *input { return (true, f.message); }
             }
